@@ -582,6 +582,13 @@ def get_sort(node):
         # may be an Int literal elsewhere: the structural part of the cache
         # must neither answer for an index nor learn from one.
         return None
+    if not node.is_leaf() and any(
+            c.is_leaf() and c.data.startswith(';') for c in node):
+        # The parser keeps a comment inside a term as one of its children,
+        # but it is no argument: the sort is that of the term without it.
+        return get_sort(
+            Node(*(c for c in node
+                   if not (c.is_leaf() and c.data.startswith(';')))))
     if node.id in __get_sort_cache:
         return __get_sort_cache[node.id]
     if node in __get_sort_cache:
